@@ -1147,6 +1147,18 @@ fn gen_relayout_text(rng: &mut Rng, small: bool) -> Option<(String, BTreeSet<&'s
     None
 }
 
+/// For other streams that need parsed programs of every shape (C20d): a text of one of the two C07 sources.
+pub fn gen_valid_text(rng: &mut Rng) -> (String, &'static str) {
+    static POOL: std::sync::OnceLock<Vec<String>> = std::sync::OnceLock::new();
+    let queries = POOL.get_or_init(query_pool);
+    if rng.chance(35) {
+        if let Some((text, _)) = gen_relayout_text(rng, false) { return (text, "src:gen_program"); }
+    }
+    let small = rng.chance(30);
+    let (text, _, _) = gen_ast_text(rng, queries, small);
+    (text, "src:ast")
+}
+
 // ---------------------------------------------------------------- cases
 fn make_case(stream: &str, text: &str, intended: Option<&str>, mut tags: Vec<String>, note: &str) -> Case {
     crate::exec::quiet_panics();
